@@ -38,7 +38,7 @@ func bits(i, n int, zero, one func(pos int) string) string {
 	return b.String()
 }
 
-var numericIDs = []string{"", "0", "1", "01", "1.0", "1e3", "-1", "true", "null", "NaN", "0x1F", "١٢", "1_000", "+1", ".5", "9007199254740993", "Infinity"}
+var numericIDs = []string{"", "0", "1", "01", "1.0", "1e3", "-1", "true", "null", "NaN", "0x1F", "\u0661\u0662", "1_000", "+1", ".5", "9007199254740993", "Infinity"}
 
 // idSpelling is the id string of index i (≥ 1; 0 is always the empty id) in the given set.
 func idSpelling(set, i int) string {
@@ -53,22 +53,22 @@ func idSpelling(set, i int) string {
 	case 4:
 		return b + "\u0085nel\u009f"
 	case 5:
-		return "ls " + b + " ps"
+		return "ls\u2028" + b + "\u2029ps"
 	case 6:
 		return `"` + b + `\"\\ '` + "`"
 	case 7:
 		return "line\n" + b + "\ttab\rcr\b\f"
 	case 8:
-		return "😀" + b + "𝔘"
+		return "\U0001F600" + b + "\U0001D518"
 	case 9:
 		return "\U000E0001" + b + "\U0010FFFF\U000F0000"
 	case 10:
-		return "é" + b + "̈‍̣"
+		return "e\u0301" + b + "\u0308\u200d\u0323"
 	case 11: // ids that differ only in case
 		word := "subscription"
 		return bits(i, len(word), func(p int) string { return word[p : p+1] }, func(p int) string { return strings.ToUpper(word[p : p+1]) })
 	case 12: // ids that differ only in (canonical) normalisation
-		return bits(i, 11, func(int) string { return "é" }, func(int) string { return "é" })
+		return bits(i, 11, func(int) string { return "\u00e9" }, func(int) string { return "e\u0301" })
 	case 13:
 		if i < len(numericIDs) {
 			return numericIDs[i]
@@ -79,7 +79,7 @@ func idSpelling(set, i int) string {
 	case 15:
 		return " <" + b + ">&  "
 	case 16:
-		return "�" + b + "﻿￾"
+		return "\ufffd" + b + "\ufeff\ufffe"
 	}
 	if i <= 26 {
 		return b
